@@ -898,6 +898,8 @@ def run(p: Program, rep: Report, tier: str) -> None:
     merges = []
     for f_ in _wh(p, pr):  # parse_range and the private stages it is split into
         returned = {n.value.id for n in ast.walk(f_.node) if isinstance(n, ast.Return) and isinstance(n.value, ast.Name)}
+        for _ in range(3):  # ... and what is copied into a returned name (`ret = result`)
+            returned |= {n.value.id for n in ast.walk(f_.node) if isinstance(n, ast.Assign) and isinstance(n.value, ast.Name) and any(isinstance(t, ast.Name) and t.id in returned for t in n.targets)}
         merges += [n for n in ast.walk(f_.node) if isinstance(n, ast.Assign) and len(n.targets) == 1 and isinstance(n.targets[0], ast.Subscript)
                    and isinstance(n.targets[0].value, ast.Name) and n.targets[0].value.id in returned and isinstance(n.value, ast.Tuple) and len(n.value.elts) == 2]
     for m_ in merges:
